@@ -567,6 +567,8 @@ def _seq_of_arrays(x):
 
 def np_vstack(ex, st, args, kwargs):
     parts = args[0]
+    if isinstance(parts, L.GList):
+        return parts.as_garr()
     if isinstance(parts, (list, tuple)) and any(isinstance(p, L.GArr) for p in parts):
         rows, rshape, kind = [], None, "f"
         for p in parts:
@@ -588,6 +590,12 @@ def np_stack(ex, st, args, kwargs):
 
 def np_concatenate(ex, st, args, kwargs):
     ax = _axis(args, kwargs)
+    if isinstance(args[0], L.GList):
+        if ax not in (None, 0) or any(L.GArr.of(v).row_shape == () for _, v in args[0].items):
+            raise Unsupported("concatenate of a guarded list along a non-leading axis")
+        return args[0].as_garr()
+    if isinstance(args[0], (list, tuple)) and any(isinstance(p, L.GArr) for p in args[0]) and ax in (None, 0):
+        return np_vstack(ex, st, args, kwargs)
     return L.concat(_seq_of_arrays(args[0]), axis=0 if ax is None else ax)
 
 
@@ -868,6 +876,8 @@ def np_delete(ex, st, args, kwargs):
     a = L.as_arr(args[0])
     ci = _conc_index(args[1]) if not isinstance(args[1], list) else args[1]
     if ci is _SYM:
+        if isz(args[1]) and z3.is_int(args[1]):
+            raise _sx().NeedConcreteInt(args[1])  # the executor forks over the index values
         raise Unsupported("np.delete with symbolic index")
     ax = _axis(args, kwargs, 2)
     return SArr(_np.delete(a.a, ci, axis=ax).copy(), a.kind)
@@ -997,6 +1007,34 @@ def it_combinations(ex, st, args, kwargs):
     seq = ex.iter_concrete(args[0])
     r = kwargs.get("r", args[1] if len(args) > 1 else None)
     return [tuple(t) for t in itertools.combinations(seq, r)]
+
+
+def it_permutations(ex, st, args, kwargs):
+    L.used("itertools.permutations: all r-length orderings in lexicographic order of positions")
+    seq = ex.iter_concrete(args[0])
+    r = kwargs.get("r", args[1] if len(args) > 1 else None)
+    return [tuple(t) for t in itertools.permutations(seq, r)]
+
+
+def it_chain(ex, st, args, kwargs):
+    out = []
+    for a in args:
+        out.extend(ex.iter_concrete(a))
+    return out
+
+
+def it_chain_from_iterable(ex, st, args, kwargs):
+    out = []
+    for a in ex.iter_concrete(args[0]):
+        out.extend(ex.iter_concrete(a))
+    return out
+
+
+def it_repeat(ex, st, args, kwargs):
+    n = kwargs.get("times", args[1] if len(args) > 1 else None)
+    if not isinstance(n, int):
+        raise Unsupported("itertools.repeat without a concrete count")
+    return [args[0]] * n
 
 
 def sk_euclidean(ex, st, args, kwargs):
@@ -1211,6 +1249,17 @@ def np_sort(ex, st, args, kwargs):
     return arr_getitem(ex, st, a, idx)
 
 
+def np_trace(ex, st, args, kwargs):
+    a = L.as_arr(args[0])
+    ax1 = kwargs.get("axis1", args[2] if len(args) > 2 else 0)
+    ax2 = kwargs.get("axis2", args[3] if len(args) > 3 else 1)
+    if kwargs.get("offset", args[1] if len(args) > 1 else 0) != 0:
+        raise Unsupported("trace with offset")
+    d = _np.diagonal(a.a, axis1=ax1, axis2=ax2)   # object array: the diagonal moved to the last axis
+    return L.reduce(SArr(d.copy(), a.kind), V.add, Fraction(0) if a.kind == "f" else 0, -1 if d.ndim > 1 else None)
+
+
+NP["numpy.trace"] = np_trace
 NP.update({"numpy.clip": np_clip, "numpy.einsum": np_einsum, "numpy.outer": np_outer, "numpy.prod": np_prod,
            "numpy.cumsum": np_cumsum, "numpy.isclose": np_isclose, "numpy.sign": np_sign, "numpy.square": np_square,
            "numpy.count_nonzero": np_count_nonzero, "numpy.sort": np_sort, "numpy.float_power": np_power,
@@ -1229,6 +1278,10 @@ NP["numpy.argsort"] = np_argsort
 NP["numpy.argpartition"] = np_argpartition
 NP["itertools.product"] = it_product
 NP["itertools.combinations"] = it_combinations
+NP["itertools.permutations"] = it_permutations
+NP["itertools.chain"] = it_chain
+NP["itertools.chain.from_iterable"] = it_chain_from_iterable
+NP["itertools.repeat"] = it_repeat
 
 
 # ----------------------------------------------------------------------------
@@ -1519,6 +1572,8 @@ def call_builtin(ex, st, name, args, kwargs, node):
             acc = V.land(acc, t) if name == "all" else V.lor(acc, t)
         return acc
     if name == "sorted" or name == "reversed":
+        if name == "sorted" and hasattr(args[0], "to_sorted_list") and not kwargs:
+            return args[0].to_sorted_list(ex, st)
         items = ex.iter_concrete(args[0])
         if name == "reversed":
             return list(reversed(items))
